@@ -141,7 +141,8 @@ def jobs(prop, tier):
     if prop == "C20":
         def G(cfg, kinds, rate=1.0):
             return dict(mode="edge", cfg=cfg, kind=kinds, n=2, rate=rate, tool="gatereplay", dump_module="OrdaTxLockDump.tla")
-        base = [G("txlock_2op_final", "1:op,2:op"), G("txlock_optx_final", "1:op,2:tx"), G("txlock_3_final", "1:op,2:tx,3:remote")]
+        base = [G("txlock_2op_final", "1:op,2:op"), G("txlock_optx_final", "1:op,2:tx"), G("txlock_3_final", "1:op,2:tx,3:remote"),
+                G("txlock_fail_final", "1:op,2:txfail"), G("txlock_fail3_final", "1:op,2:txfail,3:tx;txlen=1")]
         free = dict(mode="go", cfg="free-running goroutines", kind="counter", tool="gatereplay", args=["-stress", "3000" if q else "200000", "-seed", "{seed}"])
         if q:
             return base + [free]
